@@ -10,6 +10,7 @@ import c01
 import c20
 import c04norm
 import c04typed
+import c04ext
 
 TRUSTED = c01.TRUSTED + ["map-iteration order and process independence are sampled by repetition (runtime behaviour the model cannot exhibit)"]
 
@@ -118,6 +119,10 @@ def run(c):
             c.report("rich document %s (text variant %s): repeating serialise/parse/calculate changes it at %s (round %s)" % (name, mode, v[0][2].decode(), v[0][1]),
                      {"rich_document": name, "variant": mode, "result": r, "rerun": "bin/vharness c14rich work/c14rich",
                       "clause": "calculate -> serialise -> parse -> calculate yields byte-identical JSON (normalisers are idempotent)"})
+    _ph(c, 50)
+    # ---- extension-only inputs, each calculated several times in one process (tools/props/c04ext.py): every extension key and
+    # value of every regime / add-on / catalogue at every ext position of invoice, order, delivery and payment
+    c04ext.run_all(c, quick, rich)
     _ph(c, 5)
     # ---- noisy leaves: every string position of the four main rich documents (made valid) given, one at a time, texts that
     # normalisers take apart in stages: what a pass leaves behind must not be something the next pass rewrites again
@@ -329,7 +334,9 @@ def run(c):
                      "Code and Key validity, Address.Normalize, the scenario-note step of Invoice.Calculate under a synthetic add-on with generated scenario sets, json.Marshal / Unmarshal of "
                      "cbc.Meta filled in two orders, cal.Date text: each compared with the extracted model of rocq/Fix on exhaustive small inputs (all single bytes, all strings up to length 5 "
                      "over {A,-,space,#}, all triples over 13 characters) and random mixtures (punctuation, Unicode white space and letters, malformed UTF-8, long runs), and judged "
-                     "directly (second application equal, clean output, order independence, read-back); distinct = distinct documents / files / wire cases" % len(exs))
+                     "directly (second application equal, clean output, order independence, read-back); extension-only inputs (tools/props/c04ext.py): every extension key / value of "
+                     "every regime, add-on and catalogue at every ext position of invoice, order, delivery and payment, with and without key/type/rate beside it, built 6 times in one "
+                     "process (byte-identical documents and digests) and fed back once; distinct = distinct documents / files / wire cases" % len(exs))
     if not proved:
         pr = c.proof
         c.report("proof obligations of Props/C04.v no longer check: " + (pr.get("make_log") or pr.get("log", ""))[-600:],
@@ -346,6 +353,8 @@ def replay(path):
         print(run_oracle([l], shards=1)[0])
     elif "input_hex" in r:
         print(run_go(["c04 %s x%s" % (r["normaliser"], r["input_hex"])], shards=1)[0])
+    elif "repeat_document" in r:
+        print(run_go(["c04 rep " + w(json.dumps(r["repeat_document"])) + " %d" % r.get("repeats", 12)], shards=1)[0])
     elif "document" in r:
         print(run_go(["c04 fix " + w(json.dumps(r["document"]))], shards=1)[0])
     elif "payment" in r:
